@@ -345,6 +345,8 @@ def main():
     fdir, st = extract("dev")
     F = core.Facts(fdir)
     ctx = run_rules(pid, tier, F)
+    if getattr(F, "renamed", None):
+        ctx.note("anchored functions re-identified after a rename/move (same type signature, unique candidate), analysed under their reference names: %s" % "; ".join("%s <- %s" % (core.short_fn_name(o), core.short_fn_name(n)) for o, n in sorted(F.renamed.items())))
     profiles = [dict(st, violations=len(ctx.violations))]
     all_viol = list(ctx.violations)
     if tier == "thorough":
